@@ -326,18 +326,20 @@ Definition signer_step (a : wsigner) (f : field) : option wsigner :=
   | _ => Some a
   end.
 Definition is_nil (b : bytes) : bool := match b with [] => true | _ => false end.
-(* ToProto (serialization.go:62-83, 352-374): without a public key the WHOLE signer is dropped,
-   address included *)
-Definition signer_to_pb (s : wsigner) : wsigner := if is_nil (sg_pk s) then signer0 else s.
+(* ToProto (serialization.go:62-83, 354-376, after the repair c84fe2d): without a public key the signer
+   is written with its address only *)
+Definition signer_to_pb (s : wsigner) : wsigner :=
+  if is_nil (sg_pk s) then {| sg_addr := sg_addr s; sg_pk := [] |} else s.
 
 Section WithPubKeys.
 Variable pk_canon : bytes -> option bytes.
 
-(* FromProto (serialization.go:103-114, 392-403) *)
+(* FromProto (serialization.go:103-116, 394-407, after the repair c84fe2d): an address without a key is kept *)
 Definition signer_from_pb (o : option wsigner) : option wsigner :=
   match o with
   | None => Some signer0
-  | Some s => if is_nil (sg_pk s) then Some signer0
+  | Some s => if is_nil (sg_pk s)
+              then (if is_nil (sg_addr s) then Some signer0 else Some {| sg_addr := sg_addr s; sg_pk := [] |})
               else match pk_canon (sg_pk s) with
                    | Some c => Some {| sg_addr := sg_addr s; sg_pk := c |}
                    | None => None end
